@@ -59,8 +59,11 @@ struct generator_aggregator_controller {
         //because only place when you can delete generator_aggregator
         //is during co_yield. And because we are in co_yield, one
         //of generators is not active
+        //the aggregator is also destroyed from coroutines (any consumer which uses co_await),
+        //the blocking wait is intended here - wait() asserts when it is used in a coroutine,
+        //force_sync() is the documented override
         while (_count>1) {
-            _queue.pop().wait();
+            _queue.pop().force_sync();
             _count--;
         }
     }
